@@ -1,8 +1,8 @@
 #!/bin/bash
 set -u
 cd "$(dirname "$0")/../.."
-w="${VERIF_WORK:-$PWD/.work/c03.$$}"; mkdir -p "$w"
-if ! lib/instr_build.sh harness/c03 "$w/bin" 2> "$w/build.log"; then
+w="${VERIF_WORK:-$PWD/.work/c14.$$}"; mkdir -p "$w"
+if ! lib/instr_build.sh harness/c14 "$w/bin" 2> "$w/build.log"; then
   cat "$w/build.log" >&2; echo "TOOL-ERROR: instrumented build failed" >&2; exit 2
 fi
 [ "${1:-}" = "--warm" ] && exit 0
